@@ -27,8 +27,12 @@ SERVICE_SCN = [dict(file="scenarios/service_cover.ndjson", cfg=SERVICE_SCN_CFG),
                dict(file="scenarios/service_F21.ndjson", cfg=SERVICE_SCN_CFG),
                dict(file="scenarios/service_F20.ndjson", cfg=SERVICE_SCN_CFG)]
 # MC_Service_D: a provider priced in a denom that needs an exchange rate (finding F20), 5 heights
-SERVICE_MC = T([dict(cfg="MC_Service.cfg", timeout=1500), dict(cfg="MC_Service_D.cfg", timeout=900)],
-               [dict(cfg="MC_Service_big.cfg", timeout=3400), dict(cfg="MC_Service_D.cfg", timeout=900)])
+SERVICE_MC = T([dict(cfg="MC_Service.cfg", timeout=1500, heap="4g"), dict(cfg="MC_Service_D.cfg", timeout=900, heap="4g")],
+               [dict(cfg="MC_Service_big.cfg", timeout=3400, heap="6g"), dict(cfg="MC_Service_D.cfg", timeout=900, heap="4g")])
+
+# histories recorded for the cross-module checks C11 / C12: plain transactions only (module-owned contexts
+# are driven by keeper calls from the harness' observation hook, which a byte-for-byte replay cannot repeat)
+RECORD = [dict(binary="service", n=T(3, 12), len=30, cfg="users=4,init=40,taxnum=1,taxden=4,slashnum=1,slashden=2,mods=0")]
 
 _ASSUME = ["TLC 1.8, SANY, CommunityModules Json", "Go toolchain, cosmos-sdk x/bank",
            "harness projection functions (raw prefix scans with the exported key constructors)",
